@@ -4,14 +4,19 @@
 //! pipeline scenarios (0-2 pipelines, DefaultBindGroup 0..2, shared entry points) x use sites (which function touches
 //! which resource, directly or through a helper) x target configs {Dx, Vk, VkBa, Msl} x modes {all, named, no-pipeline};
 //! plus small spaces for reserved entry-point / resource names, numthreads forms, unbounded arrays, the syntactic position
-//! of the use site (every statement / expression position x allocator class) and the attribute lists of entry points.
+//! of the use site (every statement / expression position x allocator class), the leaf of a nested brace initialiser that
+//! holds the use (every aggregate type of nesting depth <= 3 built from arrays / structs / uint2 x every leaf x local, for-init
+//! and second-declarator definitions), the shape of the call graph between the entry point and the function holding the use
+//! (all 64 acyclic graphs over three helpers) and the attribute lists of entry points.
 //!
 //! Oracle `reflect`: the annotations are re-read from the EMITTED source (HLSL: the text is parsed back; MSL: the tree
 //! handed to the formatter, tied to the emitted bytes by formatting it again) and compared with the returned metadata as
 //! sets keyed by name. Reachability for `is_used` is the harness' own call-graph walk over the typed IR.
 //!
 //! Signatures: `reflect|<field>|<declaration class>|<target>` with field in {name, group, slot, offset, type, count,
-//! bindless, is_used, missing-entry, extra-entry, inline-constants, entry-point, thread-group-size}.
+//! bindless, is_used, missing-entry, extra-entry, inline-constants, entry-point, thread-group-size}. For is_used the class is
+//! the only way the binding is reached when that is not an ordinary statement (via-nested-initialiser: only inside the inner
+//! braces of a brace initialiser; via-default-argument; via-static-initialiser) instead of the declaration class.
 
 use crate::engine::*;
 use crate::json::{Json, obj};
@@ -317,8 +322,9 @@ pub struct SrcInfo {
     pub pipelines: Vec<String>,
     /// pipeline name -> input names of the globals / cbuffers some entry point of the pipeline reaches
     pub reach: BTreeMap<String, BTreeSet<String>>,
-    /// pipeline name -> reachable name -> "" when a statement of a reachable function touches it, else the only way it is
-    /// reached (":via-default-argument", ":via-static-initialiser"); part of the is_used signature class
+    /// pipeline name -> reachable name -> "" when a statement of a reachable function touches it outside the inner braces of
+    /// a brace initialiser, else the only way it is reached (":via-nested-initialiser", ":via-default-argument",
+    /// ":via-static-initialiser"); part of the is_used signature class
     pub reach_how: BTreeMap<String, BTreeMap<String, &'static str>>,
     /// pipeline name -> (stage property of the pipeline block, function it names), e.g. ("PixelShader", "PSMAIN")
     pub stage_functions: BTreeMap<String, Vec<(String, String)>>,
@@ -384,6 +390,8 @@ struct Walk<'m> {
     with_defaults: bool,
     /// follow the initialiser of a static global that is read
     with_inits: bool,
+    /// look into the inner braces of a brace initialiser (false: only the entries of the outermost braces that are expressions)
+    with_nested: bool,
 }
 
 impl<'m> Walk<'m> {
@@ -394,15 +402,18 @@ impl<'m> Walk<'m> {
     }
     fn init(&mut self, i: &Option<ir::Initializer>) {
         if let Some(i) = i {
-            self.init1(i);
+            self.init1(i, 0);
         }
     }
-    fn init1(&mut self, i: &ir::Initializer) {
+    fn init1(&mut self, i: &ir::Initializer, depth: usize) {
         match i {
             ir::Initializer::Expression(e) => self.expr(e),
             ir::Initializer::Aggregate(v) => {
+                if depth >= 1 && !self.with_nested {
+                    return;
+                }
                 for x in v {
-                    self.init1(x);
+                    self.init1(x, depth + 1);
                 }
             }
         }
@@ -505,8 +516,8 @@ impl<'m> Walk<'m> {
             }
         }
     }
-    fn run(m: &'m ir::Module, entries: &[ir::FunctionId], with_defaults: bool, with_inits: bool) -> BTreeSet<String> {
-        let mut w = Walk { m, funcs: BTreeSet::new(), globals: BTreeSet::new(), pending: Vec::new(), with_defaults, with_inits };
+    fn run(m: &'m ir::Module, entries: &[ir::FunctionId], with_defaults: bool, with_inits: bool, with_nested: bool) -> BTreeSet<String> {
+        let mut w = Walk { m, funcs: BTreeSet::new(), globals: BTreeSet::new(), pending: Vec::new(), with_defaults, with_inits, with_nested };
         for e in entries {
             if w.funcs.insert(e.0) {
                 w.pending.push(*e);
@@ -534,12 +545,24 @@ pub fn analyse_source(src: &str) -> Result<SrcInfo, String> {
     for p in &module.pipelines {
         let entries: Vec<ir::FunctionId> = p.stages.iter().map(|s| s.entry_point).collect();
         pipelines.push(p.name.node.clone());
-        let plain = Walk::run(&module, &entries, false, false);
-        let with_defaults = Walk::run(&module, &entries, true, false);
-        let all = Walk::run(&module, &entries, true, true);
+        let shallow = Walk::run(&module, &entries, false, false, false);
+        let plain = Walk::run(&module, &entries, false, false, true);
+        let with_defaults = Walk::run(&module, &entries, true, false, true);
+        let all = Walk::run(&module, &entries, true, true, true);
         let mut how = BTreeMap::new();
         for n in &all {
-            how.insert(n.clone(), if plain.contains(n) { "" } else if with_defaults.contains(n) { ":via-default-argument" } else { ":via-static-initialiser" });
+            how.insert(
+                n.clone(),
+                if shallow.contains(n) {
+                    ""
+                } else if plain.contains(n) {
+                    ":via-nested-initialiser"
+                } else if with_defaults.contains(n) {
+                    ":via-default-argument"
+                } else {
+                    ":via-static-initialiser"
+                },
+            );
         }
         reach_how.insert(p.name.node.clone(), how);
         reach.insert(p.name.node.clone(), all);
@@ -1528,6 +1551,24 @@ fn positions(x: &str) -> Vec<(String, String, String)> {
     v
 }
 
+/// the program of a use-site case: statement `st` in the entry point (site 0), in a helper it calls (1) or in a function
+/// nothing calls (2); `defs` are extra definitions placed after the declaration of `r0`
+fn position_program(d: &Decl, defs: &str, st: &str, site: usize) -> String {
+    let pick = |s: usize| if s == site { st } else { "" };
+    let locals = "uint i = 0u; uint arr[2] = { 0u, 0u };";
+    format!(
+        "struct S {{ float4 a; uint b; }};\n{}\nRWTexture2D<float4> rc;\nuint u_id(uint x) {{ return x; }}\n{}void h_pos() {{ {} {} }}\nvoid h_orphan() {{ {} {} }}\n[numthreads(8, 4, 2)]\nvoid CSMAIN() {{ rc; {} {} h_pos(); }}\nPipeline PC {{ ComputeShader = CSMAIN; DefaultBindGroup = 1; }}\n",
+        decl_text(d, "r0"),
+        defs,
+        locals,
+        pick(1),
+        locals,
+        pick(2),
+        locals,
+        pick(0)
+    )
+}
+
 pub fn position_cases() -> Vec<SrcCase> {
     let mut out = Vec::new();
     for k in CLASS_REPS {
@@ -1539,19 +1580,7 @@ pub fn position_cases() -> Vec<SrcCase> {
         for (label, defs, st) in positions(x) {
             // 0 = in the entry point, 1 = in a helper it calls, 2 = in a function nothing calls
             for site in 0..3 {
-                let pick = |s: usize| if s == site { st.as_str() } else { "" };
-                let locals = "uint i = 0u; uint arr[2] = { 0u, 0u };";
-                let src = format!(
-                    "struct S {{ float4 a; uint b; }};\n{}\nRWTexture2D<float4> rc;\nuint u_id(uint x) {{ return x; }}\n{}void h_pos() {{ {} {} }}\nvoid h_orphan() {{ {} {} }}\n[numthreads(8, 4, 2)]\nvoid CSMAIN() {{ rc; {} {} h_pos(); }}\nPipeline PC {{ ComputeShader = CSMAIN; DefaultBindGroup = 1; }}\n",
-                    decl_text(&d, "r0"),
-                    defs,
-                    locals,
-                    pick(1),
-                    locals,
-                    pick(2),
-                    locals,
-                    pick(0)
-                );
+                let src = position_program(&d, &defs, &st, site);
                 let (must, must_not) = if site == 2 { (vec!["rc".to_string()], vec!["r0".to_string()]) } else { (vec!["rc".to_string(), "r0".to_string()], vec![]) };
                 out.push(SrcCase {
                     label: format!("position {} of kind {} in {}", label, k, ["entry", "helper", "orphan"][site]),
@@ -1566,7 +1595,218 @@ pub fn position_cases() -> Vec<SrcCase> {
     out
 }
 
-const OTHER_ATTRIBUTES: [&str; 3] = ["WaveSize(32)", "outputtopology(\"triangle\")", "maxvertexcount(3)"];
+// ---------------------------------------------------------------------------------------------
+// brace initialisers: every aggregate type up to a nesting depth x every leaf of its initialiser tree
+
+/// the types a brace initialiser can initialise, built from `uint` by: array of 1, array of 2, struct { T; uint; },
+/// struct { uint; T; }; `uint2` (initialised by an inner brace pair) counts as one level of nesting
+#[derive(Clone, Debug, PartialEq, Eq)]
+pub enum ITy {
+    U,
+    V2,
+    Arr(Box<ITy>, u8),
+    StFirst(Box<ITy>),
+    StLast(Box<ITy>),
+}
+
+/// every type of exactly nesting depth `d` (5 at depth 1, 20 at depth 2, 80 at depth 3), simplest first
+pub fn ity_level(d: usize) -> Vec<ITy> {
+    if d == 0 {
+        return vec![ITy::U];
+    }
+    let mut v = Vec::new();
+    for t in ity_level(d - 1) {
+        v.push(ITy::Arr(Box::new(t.clone()), 1));
+        v.push(ITy::Arr(Box::new(t.clone()), 2));
+        v.push(ITy::StFirst(Box::new(t.clone())));
+        v.push(ITy::StLast(Box::new(t)));
+    }
+    if d == 1 {
+        v.push(ITy::V2);
+    }
+    v
+}
+
+fn ity_text(t: &ITy) -> String {
+    match t {
+        ITy::U => "uint".into(),
+        ITy::V2 => "uint2".into(),
+        ITy::Arr(t, n) => format!("{}[{}]", ity_text(t), n),
+        ITy::StFirst(t) => format!("{{{}; uint}}", ity_text(t)),
+        ITy::StLast(t) => format!("{{uint; {}}}", ity_text(t)),
+    }
+}
+
+/// number of scalar leaves of the initialiser tree
+fn ity_leaves(t: &ITy) -> usize {
+    match t {
+        ITy::U => 1,
+        ITy::V2 => 2,
+        ITy::Arr(t, n) => ity_leaves(t) * *n as usize,
+        ITy::StFirst(t) | ITy::StLast(t) => ity_leaves(t) + 1,
+    }
+}
+
+/// (base type name, array suffix of the declarator); struct definitions are appended to `defs` innermost first
+fn ity_decl(t: &ITy, defs: &mut String, counter: &mut u32) -> (String, String) {
+    match t {
+        ITy::U => ("uint".into(), String::new()),
+        ITy::V2 => ("uint2".into(), String::new()),
+        ITy::Arr(t, n) => {
+            let (b, d) = ity_decl(t, defs, counter);
+            (b, format!("[{}]{}", n, d))
+        }
+        ITy::StFirst(inner) | ITy::StLast(inner) => {
+            let (b, d) = ity_decl(inner, defs, counter);
+            let name = format!("IT{}", *counter);
+            *counter += 1;
+            if matches!(t, ITy::StFirst(_)) {
+                defs.push_str(&format!("struct {} {{ {} m0{}; uint m1; }};\n", name, b, d));
+            } else {
+                defs.push_str(&format!("struct {} {{ uint m0; {} m1{}; }};\n", name, b, d));
+            }
+            (name, String::new())
+        }
+    }
+}
+
+/// the fully braced initialiser of `t` with `e` at leaf number `target` (depth first, left to right) and 0u elsewhere
+fn ity_init(t: &ITy, next: &mut usize, target: usize, e: &str) -> String {
+    let leaf = |next: &mut usize| -> String {
+        let s = if *next == target { e.to_string() } else { "0u".to_string() };
+        *next += 1;
+        s
+    };
+    match t {
+        ITy::U => leaf(next),
+        ITy::V2 => format!("{{ {}, {} }}", leaf(next), leaf(next)),
+        ITy::Arr(inner, n) => {
+            let parts: Vec<String> = (0..*n).map(|_| ity_init(inner, next, target, e)).collect();
+            format!("{{ {} }}", parts.join(", "))
+        }
+        ITy::StFirst(inner) => {
+            let a = ity_init(inner, next, target, e);
+            let b = leaf(next);
+            format!("{{ {}, {} }}", a, b)
+        }
+        ITy::StLast(inner) => {
+            let a = leaf(next);
+            let b = ity_init(inner, next, target, e);
+            format!("{{ {}, {} }}", a, b)
+        }
+    }
+}
+
+const INIT_HOSTS: [&str; 3] = ["local-definition", "for-init-definition", "second-declarator"];
+
+/// (label, definitions, statement, nesting depth, host) for the use `x` at every leaf of the brace initialiser of every
+/// type of nesting depth 1..=max_depth, hosted by a local definition / a for-init definition / the second declarator of a
+/// local definition
+fn initialiser_positions(x: &str, max_depth: usize) -> Vec<(String, String, String, usize, usize)> {
+    let e = format!("({}, 0u)", x);
+    let mut v = Vec::new();
+    for depth in 1..=max_depth {
+        for t in ity_level(depth) {
+            let mut defs = String::new();
+            let (base, dims) = ity_decl(&t, &mut defs, &mut 0);
+            for leaf in 0..ity_leaves(&t) {
+                let init = ity_init(&t, &mut 0, leaf, &e);
+                for (h, host) in INIT_HOSTS.iter().enumerate() {
+                    let st = match h {
+                        0 => format!("{} n0{} = {};", base, dims, init),
+                        1 => format!("for ({} n1{} = {}; false; ) {{ }}", base, dims, init),
+                        _ => format!("{} z2, n2{} = {};", base, dims, init),
+                    };
+                    v.push((format!("initialiser leaf {} of {} ({})", leaf, ity_text(&t), host), defs.clone(), st, depth, h));
+                }
+            }
+        }
+    }
+    v
+}
+
+/// quick: depth <= 2 for every allocator class (Metal everywhere, the HLSL targets for the plain local definition in the
+/// entry point), depth 3 for a texture and a cbuffer in a plain local definition on Metal; thorough: everything
+pub fn initialiser_cases(quick: bool) -> Vec<SrcCase> {
+    let mut out = Vec::new();
+    for k in CLASS_REPS {
+        if k == K_PLAIN {
+            continue; // never referenced (see run_unit)
+        }
+        let d = Decl::plain(k);
+        let x = if k == K_CBUFFER { "r0_m" } else { "r0" };
+        for (label, defs, st, depth, host) in initialiser_positions(x, 3) {
+            if quick && depth > 2 && !(host == 0 && (k == 8 || k == K_CBUFFER)) {
+                continue;
+            }
+            for site in 0..3 {
+                let src = position_program(&d, &defs, &st, site);
+                let (must, must_not) = if site == 2 { (vec!["rc".to_string()], vec!["r0".to_string()]) } else { (vec!["rc".to_string(), "r0".to_string()], vec![]) };
+                let all_cfgs = if quick { depth <= 2 && host == 0 && site == 0 } else { site != 2 };
+                out.push(SrcCase {
+                    label: format!("{} of kind {} in {}", label, k, ["entry", "helper", "orphan"][site]),
+                    src,
+                    expect: Some(("PC".to_string(), must, must_not)),
+                    cfgs: if all_cfgs { ALL_CFGS.to_vec() } else { vec![Cfg::Msl] },
+                });
+            }
+        }
+    }
+    out
+}
+
+// ---------------------------------------------------------------------------------------------
+// call graphs: every acyclic call graph over the entry point and three helpers x the function that holds the use
+
+/// edges (bit i of `g`): E->f1, E->f2, E->f3, f1->f2, f1->f3, f2->f3; `site` 0 = the entry point, 1..3 = f1..f3
+pub fn call_graph_cases(quick: bool) -> Vec<SrcCase> {
+    let mut out = Vec::new();
+    let kinds: Vec<u8> = if quick { vec![8, K_CBUFFER, 2] } else { CLASS_REPS.iter().copied().filter(|k| *k != K_PLAIN).collect() };
+    for k in kinds {
+        let d = Decl::plain(k);
+        let x = if k == K_CBUFFER { "r0_m;" } else { "r0;" };
+        for g in 0..64u32 {
+            let edge = |b: u32| g >> b & 1 == 1;
+            // reachable[n]: function n (0 = entry) is called, directly or not, from the entry point
+            let mut reachable = [true, edge(0), edge(1), edge(2)];
+            if reachable[1] && edge(3) {
+                reachable[2] = true;
+            }
+            if (reachable[1] && edge(4)) || (reachable[2] && edge(5)) {
+                reachable[3] = true;
+            }
+            for site in 0..4usize {
+                let u = |n: usize| if n == site { x } else { "" };
+                let call = |b: u32, f: &str| if edge(b) { format!(" {}();", f) } else { String::new() };
+                let src = format!(
+                    "struct S {{ float4 a; uint b; }};\n{}\nRWTexture2D<float4> rc;\nvoid f3() {{ {} }}\nvoid f2() {{ {}{} }}\nvoid f1() {{ {}{}{} }}\n[numthreads(8, 4, 2)]\nvoid CSMAIN() {{ rc; {}{}{}{} }}\nPipeline PC {{ ComputeShader = CSMAIN; DefaultBindGroup = 1; }}\n",
+                    decl_text(&d, "r0"),
+                    u(3),
+                    u(2),
+                    call(5, "f3"),
+                    u(1),
+                    call(3, "f2"),
+                    call(4, "f3"),
+                    u(0),
+                    call(0, "f1"),
+                    call(1, "f2"),
+                    call(2, "f3")
+                );
+                let r = reachable[site];
+                let (must, must_not) = if r { (vec!["rc".to_string(), "r0".to_string()], vec![]) } else { (vec!["rc".to_string()], vec!["r0".to_string()]) };
+                out.push(SrcCase {
+                    label: format!("call graph {:06b} (E>f1 E>f2 E>f3 f1>f2 f1>f3 f2>f3, lowest bit first), use of kind {} in {}", g, k, ["entry", "f1", "f2", "f3"][site]),
+                    src,
+                    expect: Some(("PC".to_string(), must, must_not)),
+                    cfgs: if quick || !r { vec![Cfg::Msl] } else { ALL_CFGS.to_vec() },
+                });
+            }
+        }
+    }
+    out
+}
+
+const OTHER_ATTRIBUTES: [&str; 3] =["WaveSize(32)", "outputtopology(\"triangle\")", "maxvertexcount(3)"];
 
 /// attribute lists of length 0..2
 fn attribute_lists() -> Vec<Vec<&'static str>> {
@@ -1646,6 +1886,8 @@ fn run_src_case(c: &SrcCase, acc: &mut Acc) {
         Ok(Err(_)) => {
             acc.evals += 1;
             acc.count("rejected_by_front_end");
+            // which family of written-out cases (non-vacuity evidence: the families are meant to be accepted)
+            acc.count(&format!("rejected_by_front_end [{} cases]", c.label.split(' ').next().unwrap_or("")));
             return;
         }
         Err(pi) => {
@@ -1655,6 +1897,7 @@ fn run_src_case(c: &SrcCase, acc: &mut Acc) {
             return;
         }
     };
+    acc.count(&format!("accepted_by_front_end [{} cases]", c.label.split(' ').next().unwrap_or("")));
     if let Some((p, must, must_not)) = &c.expect {
         let r = info.reach.get(p).cloned().unwrap_or_default();
         if must.iter().any(|n| !r.contains(n)) || must_not.iter().any(|n| r.contains(n)) {
@@ -1705,6 +1948,22 @@ pub fn run(ctx: &Ctx) -> i32 {
     let pos = position_cases();
     rep.cov("use_site_positions", Json::Int(positions("r0").len() as i64));
     run_src_space(ctx, &mut rep, "use_site_positions", &pos);
+    // ---- brace initialisers: every aggregate type of nesting depth <= 3 x every leaf x host statement x site x allocator class
+    let inits = initialiser_cases(quick);
+    rep.cov(
+        "initialiser_trees",
+        Json::Arr(vec![
+            format!("types built from uint by array-of-1 / array-of-2 / struct{{T; uint}} / struct{{uint; T}} (uint2 = one level): {} / {} / {} types of depth 1 / 2 / 3", ity_level(1).len(), ity_level(2).len(), ity_level(3).len()).into(),
+            format!("leaf positions: {} / {} / {}", ity_level(1).iter().map(ity_leaves).sum::<usize>(), ity_level(2).iter().map(ity_leaves).sum::<usize>(), ity_level(3).iter().map(ity_leaves).sum::<usize>()).into(),
+            format!("hosts {:?} x sites entry / helper / orphan", INIT_HOSTS).into(),
+            format!("cases this tier: {}", inits.len()).into(),
+        ]),
+    );
+    run_src_space(ctx, &mut rep, "initialiser_trees", &inits);
+    // ---- call graphs: all 64 acyclic graphs over the entry point and three helpers x the function holding the use
+    let graphs = call_graph_cases(quick);
+    rep.cov("call_graphs", Json::Arr(vec!["64 acyclic call graphs over entry, f1, f2, f3 x 4 use sites".into(), format!("cases this tier: {}", graphs.len()).into()]));
+    run_src_space(ctx, &mut rep, "call_graphs", &graphs);
     let attrs = attribute_cases();
     rep.cov("entry_attribute_lists", Json::Arr(vec![format!("{} lists of 0-2 attributes from {:?} before and after [numthreads] (and spelled [NumThreads] for <= 2 others) x compute / mesh+pixel / task+mesh entries", attribute_lists().len(), OTHER_ATTRIBUTES).into()]));
     run_src_space(ctx, &mut rep, "entry_attribute_lists", &attrs);
